@@ -3,14 +3,79 @@ model (coq/Model/Pipeline.v) vs the implementation on the same (configuration, A
 env), compared on token dicts / HTML / env / exception class."""
 from __future__ import annotations
 
+import os
+
 from common import run_kernel, run_model, supported
 import blockrun
 import configs
 
 
+# ---- how much of the implementation the correspondence inputs of this process exercised (generator quality) ----
+_COV = {"obj": None}
+
+
+def _cov_start():
+    if os.environ.get("VERIF_IMPL_COVERAGE", "1") == "0":
+        return
+    try:
+        import coverage
+    except Exception:  # noqa: BLE001
+        return
+    if _COV["obj"] is None:
+        os.environ.setdefault("COVERAGE_CORE", "sysmon")
+        _COV["obj"] = coverage.Coverage(data_file=None, include=["/repo/markdown_it/*"], branch=False)
+    _COV["obj"].start()
+
+
+def _cov_stop():
+    if _COV["obj"] is not None:
+        _COV["obj"].stop()
+
+
+def impl_coverage_summary():
+    """statements inside function bodies of the modelled files that the implementation side of this run's
+    correspondence executed (module-level and def lines run at import, before measurement, and are left out)"""
+    cov = _COV["obj"]
+    if cov is None:
+        return None
+    import ast
+    from pathlib import Path
+    files = sorted(str(p) for p in Path("/repo/markdown_it").rglob("*.py"))
+    keep = ("rules_block/", "rules_inline/", "rules_core/", "helpers/", "parser_", "renderer.py", "common/utils.py",
+            "common/normalize_url.py", "main.py", "token.py")
+    out, tot, hit = {}, 0, 0
+    for f in files:
+        rel = f.split("/markdown_it/", 1)[1]
+        if not any(k in rel for k in keep) or "linkify" in rel:
+            continue
+        try:
+            _, stmts, _, missing, _ = cov.analysis2(f)
+            tree = ast.parse(Path(f).read_text())
+        except Exception:  # noqa: BLE001
+            continue
+        body = set()
+        for fn in ast.walk(tree):
+            if isinstance(fn, (ast.FunctionDef, ast.AsyncFunctionDef)):
+                for st in fn.body:
+                    for n in ast.walk(st):
+                        if isinstance(n, ast.stmt) and not isinstance(n, (ast.FunctionDef, ast.AsyncFunctionDef, ast.ClassDef)):
+                            body.add(n.lineno)
+        st_in = [x for x in stmts if x in body]
+        miss_in = [x for x in missing if x in body]
+        if not st_in:
+            continue
+        tot += len(st_in)
+        hit += len(st_in) - len(miss_in)
+        out[rel] = {"statements": len(st_in), "executed": len(st_in) - len(miss_in), "missing_lines": miss_in[:40]}
+    return {"what": "statements inside function bodies of the modelled implementation files executed by the implementation side of this "
+                    "run's model-vs-implementation correspondence (linkify files excluded: linkifier absent)",
+            "statements": tot, "executed": hit, "percent": round(100.0 * hit / max(1, tot), 1), "files": out}
+
+
 def correspond(cases, tag, kernel_sample=30, support=supported):
     """cases: list of (cfg, api, src, env or None).  Returns (n_run, disagreements, kn, kbad, lines)"""
     lines, exps, kept = [], [], []
+    _cov_start()
     for cfg, api, src, env in cases:
         md = configs.make_md(cfg)
         if not support(md):
@@ -26,6 +91,7 @@ def correspond(cases, tag, kernel_sample=30, support=supported):
         lines.append(line)
         exps.append(exp)
         kept.append((cfg, api, src))
+    _cov_stop()
     out = run_model(lines)
     dis = []
     for o, e, (cfg, api, src) in zip(out, exps, kept):
